@@ -44,6 +44,9 @@ func (k ppKeys) colonRest(w bool) string { return cutRest(k.rest(w), ":") }
 func (k ppKeys) starOK(w bool) string    { return cutOK(k.colonRest(w), "*") }
 func (k ppKeys) starRest(w bool) string  { return cutRest(k.colonRest(w), "*") }
 func (k ppKeys) port(w bool) string      { return "call:origins.parsePort(" + k.colonRest(w) + ")" }
+func (k ppKeys) hostNoDot() string {
+	return "call:strings.TrimSuffix(" + k.host(true) + `, ".")`
+}
 func (k ppKeys) toASCII(w bool) string {
 	return "call:(*golang.org/x/net/idna.Profile).ToASCII(*global:origins.profile, " + k.host(w) + ")"
 }
@@ -214,7 +217,9 @@ func checkC13(ctx *Ctx) *Result {
 	for _, pr := range []struct{ fn, table string }{{"isLowerAlpha", "lowerAlpha"}, {"isSubsequentSchemeByte", "laterSchemeBytes"}, {"isASCIILabelByte", "asciiLabelBytes"}, {"isDigit", "digits"}, {"isNonZeroDigit", "nonzeroDigits"}} {
 		fn := p.Func(pkgOrigins, pr.fn)
 		if fn == nil {
-			r.undecided("R13.2", pr.fn, "anchor not found")
+			// no such wrapper: the lexers consult the table directly, and their
+			// step rules (R13.6–R13.9) read the table off the inlined call
+			r.ok("R13.2", pr.fn+" consults "+pr.table, 0, "wrapper absent")
 			continue
 		}
 		x := p.NewExec(nil)
@@ -319,7 +324,11 @@ func checkC13(ctx *Ctx) *Result {
 			if !w {
 				return ""
 			}
-			return need(pa, "bin:<(251, len:builtin.len("+k.host(true)+"))", -1, "no 251-byte cap on the base domain of a `*.` pattern")
+			// measured with or without the trailing dot (R13.10 decides which is right)
+			if pa.Val("bin:<(251, len:builtin.len("+k.host(true)+"))") == -1 || pa.Val("bin:<(251, len:builtin.len("+k.hostNoDot()+"))") == -1 {
+				return ""
+			}
+			return "no 251-byte cap on the base domain of a `*.` pattern"
 		}},
 		{"wildcard ⇒ not an IP", func(pa *Path, w bool) string {
 			if !w {
@@ -427,7 +436,10 @@ func checkC13(ctx *Ctx) *Result {
 		add(k.S+"#2", false)
 		add(`bin:==(`+k.S+`#0, "file")`, true)
 		add(k.SEPok, false)
-		add("bin:<(251, len:builtin.len("+k.host(true)+"))", true)
+		// "a domain of at most 251 bytes", and a domain's length does not count its
+		// trailing dot (as for the 253 bytes of a wildcard-free host, where the
+		// IDNA profile measures): the cap is on the host without that dot
+		add("bin:<(251, len:builtin.len("+k.hostNoDot()+"))", true)
 		add(k.isIP(true), true)
 		for _, w := range []bool{false, true} {
 			add(k.FH(w)+"#2", false)
@@ -458,7 +470,11 @@ func checkC13(ctx *Ctx) *Result {
 					found = true
 				}
 			}
-			r.check(found, "R13.10", "ParsePattern rejection decided by {"+lastAtom(pa)+"}", "", "a pattern is rejected because of "+la.String()+", which is none of the documented defects: patterns of the documented form would be refused", 1)
+			detail := "a pattern is rejected because of " + la.String() + ", which is none of the documented defects: patterns of the documented form would be refused"
+			if la.Pos && la.T.Key() == "bin:<(251, len:builtin.len("+k.host(true)+"))" {
+				detail = "the 251-byte cap on the base domain of a `*.` pattern is applied to the host including its trailing dot: `*.` + a 251-byte domain + `.` is of the documented form (a domain's length does not count the trailing dot) and is refused"
+			}
+			r.check(found, "R13.10", "ParsePattern rejection decided by {"+lastAtom(pa)+"}", "", detail, 1)
 		}
 	}
 	for _, g := range guards {
@@ -589,7 +605,11 @@ func checkC13(ctx *Ctx) *Result {
 		if pa.Val("bin:<(0, len:builtin.len("+FH+"#1))") == 1 {
 			wantPort = PORT + "#0"
 		}
-		if got := fieldOf(o, "Port").Key(); got != wantPort {
+		got := fieldOf(o, "Port").Key()
+		if fieldOf(o, "Port").Op == "zero" {
+			got = "0" // field left out of the literal
+		}
+		if got != wantPort {
 			badAsm = "Origin.Port is " + got + ", expected " + wantPort + " (the port as written; 0 only when none is written)"
 		}
 	}
